@@ -56,6 +56,12 @@ var c01Inputs = []moduleInput{
 	{"goverter:variables in their own package, two blocks in two files", map[string]string{
 		"app/a.go": "package app\n\ntype Row struct{ A int }\ntype Out struct{ A int }\n\n// goverter:variables\nvar (\n\tToOut func(source Row) Out\n)\n",
 		"app/b.go": "package app\n\n// goverter:variables\n// goverter:extend Twice\nvar (\n\tToOuts func(source []Row) []Out\n\tToInts func(source []int) []string\n)\n\nfunc Twice(i int) string { return \"\" }\n"}, []string{"./app"}, nil},
+	{"variadic func type in a signature (skipCopySameType)", map[string]string{
+		"chk/chk.go": "package chk\n\nimport (\n\t\"example.org/m/p\"\n\t\"example.org/m/p/generated\"\n)\n\nvar _ p.C = &generated.CImpl{}\n",
+		"p/conv.go":   "package p\n\ntype In struct{ F func(string, ...int) int }\ntype Out struct{ F func(string, ...int) int }\n\n// goverter:converter\n// goverter:skipCopySameType\ntype C interface {\n\tV(source map[string]func(...int)) map[string]func(...int)\n\tConv(source []In) []Out\n}\n"}, []string{"./p"}, nil},
+	{"unnamed structs with tagged / embedded fields in signatures, variables and containers", map[string]string{
+		"chk/chk.go": "package chk\n\nimport (\n\t\"example.org/m/p\"\n\t\"example.org/m/p/generated\"\n)\n\nvar _ p.C = &generated.CImpl{}\n",
+		"p/conv.go":   "package p\n\ntype Meta struct{ ID int }\ntype In struct {\n\tItems []struct {\n\t\tMeta `json:\",inline\"`\n\t\tName string `json:\"name\"`\n\t}\n\tByKey map[string]struct {\n\t\t*Meta `bson:\",inline\"`\n\t\tN int\n\t}\n}\ntype Out struct {\n\tItems []struct {\n\t\tMeta `json:\",inline\"`\n\t\tName string `json:\"name\"`\n\t}\n\tByKey map[string]struct {\n\t\t*Meta `bson:\",inline\"`\n\t\tN int\n\t}\n}\n\n// goverter:converter\ntype C interface {\n\tConv(source In) Out\n\tOne(source struct {\n\t\tMeta `json:\",inline\"`\n\t\tA int `json:\"a\"`\n\t}) struct {\n\t\tMeta `json:\",inline\"`\n\t\tA int `json:\"a\"`\n\t}\n}\n"}, []string{"./p"}, nil},
 	{"converter method named like a generated helper", map[string]string{
 		"p/conv.go": "package p\n\ntype In struct{ A int }\ntype Out struct{ A int }\n\n// goverter:converter\ntype C interface {\n\tPInToPOut(s []In) []Out\n\tConv(s []*In) []*Out\n}\n"}, []string{"./p"}, nil},
 }
